@@ -586,3 +586,35 @@ def rust_char(ch):
     if 0x20 <= o < 0x7F:
         return "'%s'" % ch
     return "'\\u{%x}'" % o
+
+
+def called_helpers(source, text, defined_text, limit=8):
+    """Top-level `fn NAME` items of `source` that `text` calls (NAME followed by '(') and that `defined_text` does not define:
+    transitive, at most `limit`.  Lets a statement-level slice follow a condition that was factored out into a helper function."""
+    import re
+    out, seen, todo = [], set(), [text]
+    defined = set(re.findall(r"\bfn\s+(\w+)", defined_text))
+    while todo and len(out) < limit:
+        t = todo.pop()
+        for nm in re.findall(r"(?<![\.\w:])([a-z_][a-z0-9_]*)\s*\(", t):
+            if nm in seen or nm in defined:
+                continue
+            seen.add(nm)
+            try:
+                sp = source.find("fn " + nm)
+            except SliceError:
+                continue
+            # only items at the top level of the file (depth 0)
+            depth = 0
+            for tk in source.code:
+                if tk.start >= sp.start:
+                    break
+                if tk.kind == "punct" and tk.text == "{":
+                    depth += 1
+                elif tk.kind == "punct" and tk.text == "}":
+                    depth -= 1
+            if depth != 0:
+                continue
+            out.append(sp)
+            todo.append(sp.text)
+    return out
